@@ -200,6 +200,16 @@ def corruptions(g1):
     mut("nested container definition deleted", delete("ContainerSet", "COMMON"))
     mut("base container definition deleted", delete("ContainerSet", "SCI"))
 
+    def unused_param(r):
+        # a parameter that no entry list uses still has to name a defined type
+        s = find_all(r, "ParameterSet")[0]
+        kids = [k for k in s.attrs["__children__"] if is_elem(k)]
+        c = clone(kids[0])
+        c.attrs["attrib"]["name"] = "NOT_USED_ANYWHERE"
+        c.attrs["attrib"]["parameterTypeRef"] = "NO_SUCH_TYPE"
+        append(s, c)
+    mut("unused parameter whose parameterTypeRef is undefined", unused_param)
+
     def base_cycle(r):
         for e in find_all(r, "SequenceContainer"):
             if e.attrs["attrib"].get("name") == "SCI":
@@ -243,6 +253,31 @@ def corruption_table(ctx: Ctx, g1):
             else:
                 bad = graph_consistency(ctx, got, site)
                 ctx.decide(bad is None, "R17.c", site, "tolerated; graph stays consistent", f"`{desc}` is accepted but the graph is inconsistent: {bad}")
+    # what a load decides does not depend on earlier loads in the same process: after a load that was rejected half-way, a
+    # document with a deleted definition is still rejected and the valid document still loads consistently
+    cs = {d: (doc, ex) for d, doc, ex in corruptions(g1)}
+    site = f"{LOAD}::corruption::rejected load, then a document with a deleted definition, then the valid document"
+    try:
+        h = X.harness(prog)
+        verdicts = []
+        for first in ("nesting cycle COMMON -> SCI -> COMMON", "container duplicated with a change", "last entry-list parameterRef renamed"):
+            k1, _ = try_load(h, cs[first][0])
+            for later in ("nested container definition deleted", "base container definition deleted", "used parameter definition deleted"):
+                k2, got2 = try_load(h, cs[later][0])
+                if k2 != "raise":
+                    verdicts.append(f"after the rejected load of `{first}`, the document with `{later}` loads without error")
+            k3, got3 = try_load(h, clone_tree(g1))
+            if k3 != "ok":
+                verdicts.append(f"after the rejected load of `{first}`, the valid document fails to load: {got3}")
+            else:
+                bad = graph_consistency(ctx, got3, site)
+                if bad:
+                    verdicts.append(f"after the rejected load of `{first}`, the valid document loads inconsistently: {bad}")
+        ctx.decide(not verdicts, "R17.c", site, "loads are independent of earlier (failed) loads", "; ".join(verdicts[:2]))
+    except Unsupported as e:
+        ctx.unknown("R17.c", site, str(e))
+    except KeyError as e:
+        ctx.unknown("R17.c", site, f"corruption {e} not available")
 
 
 def guarded_inserts(ctx: Ctx):
